@@ -170,19 +170,19 @@ Qed.
 
 (* every source definition is compiled (by compile_main or compile_def) and its group of Core
    definitions is part of the result *)
-Lemma compile_defs_groups : forall lg defs codata ul front back res,
-  compile_defs lg defs codata ul front back = Ok res ->
+Lemma compile_defs_groups : forall lg called defs codata ul front back res,
+  compile_defs lg called defs codata ul front back = Ok res ->
   (forall d, In d defs -> exists ul1 g ul2,
-     (if String.eqb (fdname d) "main" then compile_main lg d codata ul1 else compile_def lg d codata ul1) = Ok (g, ul2) /\
+     (if String.eqb (fdname d) "main" then compile_main_group lg called d codata ul1 else compile_def lg d codata ul1) = Ok (g, ul2) /\
      incl g res) /\
   incl front res /\ incl back res.
 Proof.
-  intros lg. induction defs as [|d r IH]; intros codata ul front back res H; simpl in H.
+  intros lg called. induction defs as [|d r IH]; intros codata ul front back res H; simpl in H.
   - injection H as H. subst res. split; [intros d []|]. split.
     + intros x Hx. apply in_or_app. left. exact Hx.
     + intros x Hx. apply in_or_app. right. rewrite rev_append_rev, app_nil_r. apply in_rev in Hx. exact Hx.
   - destruct (String.eqb (fdname d) "main") eqn:E.
-    + destruct (compile_main lg d codata ul) as [[g ul']|?] eqn:Em; simpl in H; [|discriminate].
+    + destruct (compile_main_group lg called d codata ul) as [[g ul']|?] eqn:Em; simpl in H; [|discriminate].
       destruct (IH _ _ _ _ _ H) as [H1 [H2 H3]]. split; [|split].
       * intros d' [Hd|Hd]; [subst d'; rewrite E; exists ul, g, ul'; split; [exact Em|] | apply H1; exact Hd].
         intros x Hx. apply H2. apply in_or_app. left. exact Hx.
@@ -194,6 +194,52 @@ Proof.
         intros x Hx. apply H3. rewrite rev_append_rev. apply in_or_app. left. apply in_rev in Hx. exact Hx.
       * exact H2.
       * intros x Hx. apply H3. rewrite rev_append_rev. apply in_or_app. right. exact Hx.
+Qed.
+
+(* the definitions that come first: compile_main of main, or (fix <commitmain>, main is called) the entry point
+   compiled by compile_main followed by main compiled by compile_def *)
+Lemma compile_main_group_inv : forall lg called d codata ul g ul',
+  compile_main_group lg called d codata ul = Ok (g, ul') ->
+  (called && negb lg = false /\ compile_main lg d codata ul = Ok (g, ul')) \/
+  (called && negb lg = true /\
+   exists nm e ule m, fresh_name ul "main" = (nm, nm :: ul) /\
+     compile_main lg (entry_fdef d nm) codata (nm :: ul) = Ok (e, ule) /\
+     compile_def lg d codata ule = Ok (m, ul') /\ g = e ++ m).
+Proof.
+  intros lg called d codata ul g ul' H. unfold compile_main_group in H.
+  destruct (called && negb lg); [right | left; auto]. split; [reflexivity|].
+  pose proof (fresh_name_fresh ul "main") as [_ Hsnd].
+  destruct (fresh_name ul "main") as [nm ul1] eqn:Efn. simpl in Hsnd. subst ul1.
+  destruct (compile_main lg (entry_fdef d nm) codata (nm :: ul)) as [[e ule]|?] eqn:Ee; simpl in H; [|discriminate].
+  destruct (compile_def lg d codata ule) as [[m ulm]|?] eqn:Em; simpl in H; [|discriminate].
+  injection H as Hg Hul. subst g ul'. exists nm, e, ule, m. auto.
+Qed.
+
+(* every definition of the output belongs to a group compiled by compile_main or compile_def (from a source
+   definition or from the entry point made of one) *)
+Lemma compile_defs_cover : forall lg called defs codata ul front back res,
+  compile_defs lg called defs codata ul front back = Ok res ->
+  forall x, In x res ->
+    In x front \/ In x back \/
+    exists d ul1 g ul2,
+      (compile_main lg d codata ul1 = Ok (g, ul2) \/ compile_def lg d codata ul1 = Ok (g, ul2)) /\ In x g.
+Proof.
+  intros lg called. induction defs as [|d r IH]; intros codata ul front back res H x Hx; simpl in H.
+  - injection H as H. subst res. apply in_app_or in Hx. destruct Hx as [Hx|Hx]; [left; exact Hx|].
+    right. left. rewrite rev_append_rev, app_nil_r in Hx. apply in_rev in Hx. exact Hx.
+  - destruct (String.eqb (fdname d) "main") eqn:E.
+    + destruct (compile_main_group lg called d codata ul) as [[g ul']|?] eqn:Em; simpl in H; [|discriminate].
+      destruct (IH _ _ _ _ _ H x Hx) as [H1|[H1|H1]]; [|right; left; exact H1 | right; right; exact H1].
+      apply in_app_or in H1. destruct H1 as [H1|H1]; [|left; exact H1]. right. right.
+      destruct (compile_main_group_inv _ _ _ _ _ _ _ Em) as [[_ Hc]|[_ [nm [e [ule [m [_ [He [Hm ->]]]]]]]]].
+      * exists d, ul, g, ul'. split; [left; exact Hc | exact H1].
+      * apply in_app_or in H1. destruct H1 as [H1|H1].
+        -- exists (entry_fdef d nm), (nm :: ul), e, ule. split; [left; exact He | exact H1].
+        -- exists d, ule, m, ul'. split; [right; exact Hm | exact H1].
+    + destruct (compile_def lg d codata ul) as [[g ul']|?] eqn:Em; simpl in H; [|discriminate].
+      destruct (IH _ _ _ _ _ H x Hx) as [H1|[H1|H1]]; [left; exact H1 | | right; right; exact H1].
+      rewrite rev_append_rev in H1. apply in_app_or in H1. destruct H1 as [H1|H1]; [|right; left; exact H1].
+      right. right. exists d, ul, g, ul'. apply in_rev in H1. split; [right; exact Em | exact H1].
 Qed.
 
 Lemma find_def_in : forall p f d, ffind_def p f = Some d -> In d (fcpdefs p) /\ fdname d = f.
@@ -209,18 +255,21 @@ Section Prog.
   Hypothesis Hnd : NoDup (map fdname (fcpdefs p)).
   Hypothesis Hguard : prog_guard p = true.
 
+  Lemma prog_ncm : calls_main_prog p = false.
+  Proof. unfold prog_guard in Hguard. apply andb_prop in Hguard. destruct Hguard as [H _]. apply negb_true_iff in H. exact H. Qed.
+
   Lemma prog_codata : cpcodata c = codata_of p.
   Proof.
     unfold compile_prog, compile_prog_gen in Hcomp.
-    destruct (compile_defs false (fcpdefs p) _ _ [] []) as [defs|?]; simpl in Hcomp; [|discriminate].
+    destruct (compile_defs false _ (fcpdefs p) _ _ [] []) as [defs|?]; simpl in Hcomp; [|discriminate].
     injection Hcomp as Hc. subst c. reflexivity.
   Qed.
 
   Lemma prog_defs : exists defs,
-    compile_defs false (fcpdefs p) (codata_of p) (map fdname (fcpdefs p)) [] [] = Ok defs /\ cpdefs c = defs.
+    compile_defs false false (fcpdefs p) (codata_of p) (map fdname (fcpdefs p)) [] [] = Ok defs /\ cpdefs c = defs.
   Proof.
-    unfold compile_prog, compile_prog_gen in Hcomp. fold (codata_of p) in Hcomp.
-    destruct (compile_defs false (fcpdefs p) (codata_of p) _ [] []) as [defs|?] eqn:E; simpl in Hcomp; [|discriminate].
+    unfold compile_prog, compile_prog_gen in Hcomp. fold (codata_of p) in Hcomp. rewrite prog_ncm in Hcomp.
+    destruct (compile_defs false false (fcpdefs p) (codata_of p) _ [] []) as [defs|?] eqn:E; simpl in Hcomp; [|discriminate].
     injection Hcomp as Hc. subst c. exists defs. auto.
   Qed.
 
@@ -231,13 +280,16 @@ Section Prog.
   Qed.
 
   Lemma guard_of : forall d, In d (fcpdefs p) -> def_guard p d = true.
-  Proof. intros d Hd. unfold prog_guard in Hguard. rewrite forallb_forall in Hguard. apply Hguard. exact Hd. Qed.
+  Proof.
+    intros d Hd. unfold prog_guard in Hguard. apply andb_prop in Hguard. destruct Hguard as [_ Hg].
+    rewrite forallb_forall in Hg. apply Hg. exact Hd.
+  Qed.
 
   Lemma prog_callee : forall f d, ffind_def p f = Some d -> f <> "main" -> callee_ok p c d.
   Proof.
     intros f d Hf Hnm. destruct (find_def_in _ _ _ Hf) as [Hin Hname].
     destruct prog_defs as [defs [Hdefs Hcd]].
-    destruct (compile_defs_groups _ _ _ _ _ _ _ Hdefs) as [Hgroups _].
+    destruct (compile_defs_groups _ _ _ _ _ _ _ _ Hdefs) as [Hgroups _].
     destruct (Hgroups d Hin) as [ul1 [g [ul2 [Hc Hincl]]]].
     assert (Em : String.eqb (fdname d) "main" = false) by (apply String.eqb_neq; congruence).
     rewrite Em in Hc. unfold compile_def in Hc.
@@ -300,10 +352,10 @@ Proof.
   unfold run_fun in Hrun.
   destruct (ffind_def p "main") as [d|] eqn:Ed; [|subst o; contradiction Hfin].
   destruct (find_def_in _ _ _ Ed) as [Hin Hname].
-  destruct (prog_defs p c Hcomp) as [defs [Hdefs Hcd]].
-  destruct (compile_defs_main_head _ _ _ _ _ _ _ _ Hdefs Hnd Hin Hname) as [ul1 [g [ul2 [tl [Hm Hres]]]]].
+  destruct (prog_defs p c Hcomp Hguard) as [defs [Hdefs Hcd]].
+  destruct (compile_defs_main_head _ _ _ _ _ _ _ _ _ Hdefs Hnd Hin Hname) as [ul1 [g [ul2 [tl [Hm Hres]]]]].
   simpl in Hres. rewrite Hres in Hcd.
-  unfold compile_main in Hm.
+  unfold compile_main_group in Hm. cbn [andb] in Hm. unfold compile_main in Hm.
   match type of Hm with context [run_def_body ?cd ?dd ?u ?k] =>
     destruct (run_def_body cd dd u k) as [[body st']|?] eqn:Eb end; simpl in Hm; [|discriminate].
   injection Hm as Hg Hul. subst g.
